@@ -217,6 +217,16 @@ def _apply_section(sec, head, it, data, s0, e0, what, edits, drop, tags_box, ret
         if not ghost_only(body):
             raise GenError(f"template line {tl}: spliced text is not ghost-only")
         edits.append(Edit(lp["body_start"] + 1, lp["body_start"] + 1, "\n" + body + "\n", "ins:loopbody", tl))
+    elif kw in ("beforeloop", "afterloop"):
+        # structural anchors: ghost text right before / right after loop K (when the loop is a statement)
+        k = int(w[1].rstrip(":"))
+        if k >= len(it["loops"]):
+            raise GenError(f"{what}: loop {k} not found (function has {len(it['loops'])} loops)")
+        lp = it["loops"][k]
+        if not ghost_only(body):
+            raise GenError(f"template line {tl}: spliced text is not ghost-only")
+        at = lp["span"][0] if kw == "beforeloop" else lp["span"][1]
+        edits.append(Edit(at, at, "\n" + body + "\n", "ins:" + kw, tl))
     elif kw in ("before", "after"):
         m = ANCH.search(head)
         if not m:
